@@ -55,6 +55,9 @@ def base_env():
     env = {'implies': implies, 'sext': lambda a, b: a == b, 'typed': lambda x, t: x, 'fresh': lambda x: True}
     env.update(contracts.SPECFNS)
     env.update(contracts.SPECPREDS)
+    from . import ntrace
+    ntrace.install()
+    env.update(ntrace.accessors())
     return env
 
 
@@ -77,6 +80,8 @@ def reset_globals():
     u = sys.modules.get('core.util')
     if u is not None:
         u.color_output = False
+    from . import ntrace
+    ntrace.reset()
 
 
 def check_call(c, fn, args, kwargs=None):
